@@ -38,6 +38,9 @@ RULE = ("scripted steppers walking through prescribed state / observable sequenc
         "rings/stars/chains/random graphs (both edge orientations, mixed-sign J != 0, an edge on the two last variables, "
         "duplicate edges); observable of edge (a,b,J) = +1 iff satisfied (equal spins for J<0, different for J>0), computed by "
         "the harness from s[a], s[b], sign J on the states of an identically seeded clone. "
+        "temper oracle = identically built reference container driven in lock step (serial semantics): samples, final "
+        "arrangement and total_swaps; plus the swap-period boundary s in {T-1,T,T+1,2T} with f dividing T, equal betas, every "
+        "exchange accepted. "
         "Non-trivial = all columns non-constant (oracle applies); distinct = distinct input line.")
 
 
